@@ -1215,6 +1215,11 @@ func groupAdversarial(c *core.Case) {
 				checkAll(append(hugeHeader(true, size, 0), x...), "huge-header-in-huge-list")
 				// as a later element, after honest ones
 				checkAll(encList(append(encStr([]byte("abc")), x...)), "huge-header-after-elements")
+				// after an element that overruns its (honest, small) enclosing list by its own header: nothing beyond the
+				// list may be looked at, least of all believed (regression inputs of the Stream.Kind list-limit repair)
+				checkAll(append([]byte{0xc2, 0xc2, 0x00, 0x55}, x...), "huge-header-after-overrunning-list-element")
+				checkAll(append([]byte{0xc3, 0x01, 0xc2, 0x00, 0x55}, x...), "huge-header-after-overrunning-list-element")
+				checkAll(append([]byte{0xc2, 0x82, 0x00, 0x00}, x...), "huge-header-after-overrunning-string-element")
 			}
 		}
 		run.Nontrivial(fmt.Sprint("huge|", c.I))
